@@ -5,6 +5,7 @@
 package vnet
 
 import (
+	"context"
 	"fmt"
 	"io"
 	"net"
@@ -449,3 +450,53 @@ func (c *StreamConn) SetWriteDeadline(t time.Time) error {
 	return nil
 }
 func (c *StreamConn) IsClosed() bool { return c.closed }
+
+// ---- configuration-style entry points of package net, mapped onto the simulated network
+
+type Resolver = net.Resolver
+
+// Dialer mirrors net.Dialer; timeouts and keep-alives have no meaning on the simulated network.
+type Dialer struct {
+	Timeout       time.Duration
+	Deadline      time.Time
+	LocalAddr     Addr
+	DualStack     bool
+	FallbackDelay time.Duration
+	KeepAlive     time.Duration
+	Resolver      *Resolver
+	Cancel        <-chan struct{}
+}
+
+func (d *Dialer) Dial(network, address string) (Conn, error) { return Dial(network, address) }
+func (d *Dialer) DialContext(_ context.Context, network, address string) (Conn, error) {
+	return Dial(network, address)
+}
+func DialTimeout(network, address string, _ time.Duration) (Conn, error) {
+	return Dial(network, address)
+}
+func DialTCP(network string, _, raddr *TCPAddr) (Conn, error) { return Dial(network, raddr.String()) }
+
+// ListenConfig mirrors net.ListenConfig.
+type ListenConfig struct {
+	KeepAlive time.Duration
+}
+
+func (lc *ListenConfig) Listen(_ context.Context, network, address string) (Listener, error) {
+	return Listen(network, address)
+}
+func (lc *ListenConfig) ListenPacket(_ context.Context, network, address string) (PacketConn, error) {
+	return ListenPacket(network, address)
+}
+
+// ListenPacket: UDP only.
+func ListenPacket(network, address string) (PacketConn, error) {
+	a, err := net.ResolveUDPAddr(network, address)
+	if err != nil {
+		return nil, err
+	}
+	return ListenUDP(network, a)
+}
+
+func ListenTCP(network string, laddr *TCPAddr) (Listener, error) {
+	return Listen(network, laddr.String())
+}
